@@ -15,6 +15,7 @@ from __future__ import annotations
 
 import ast
 
+from ..dataflow import Inliner
 from ..loader import AnalysisError, ClassInfo, FuncInfo, Program, calls_in, norm, walk_no_nested
 from ..report import Ledger
 from ..serial import DV, EV, emitted_schema, protocol_members
@@ -173,37 +174,104 @@ def run(prog: Program, L: Ledger) -> None:
                     "isinstance test on the user move outside the `criteria is None` default lookup", "a move that inherits from nothing is rejected even with an explicit criteria", norm(c))
 
     # ------------------------------------------------------------------ P2
-    step = mc.methods.get("step")
-    if step is None:
+    from ..minieval import PredUnsupported, Raises, ev as mev, run_stmts
+    from ..normalize import flat
+
+    step0 = mc.methods.get("step")
+    if step0 is None:
         raise AnalysisError("MonteCarlo.step missing")
+    step = flat(prog, step0, mc)
     loops = [s for s in step.body() if isinstance(s, ast.For) and norm(s.iter) == "self.yield_moves()"]
     if len(loops) != 1:
         raise AnalysisError("MonteCarlo.step: loop over yield_moves not found")
     lp = loops[0]
-    ifs = [s for s in lp.body if isinstance(s, ast.If)]
-    mv_if = None
-    for s in ifs:
-        t = s.test
-        if isinstance(t, ast.Call) and [norm(a) for a in t.args] == ["self.context"]:
-            mv_if = s
-    if mv_if is None:
-        raise AnalysisError("MonteCarlo.step: `if move(self.context):` not found")
-    body_txt = [norm(x) for x in mv_if.body]
-    ev_calls = [c for x in mv_if.body for c in calls_in(x) if isinstance(c.func, ast.Attribute) and c.func.attr == "evaluate"]
-    ok_t = len(ev_calls) == 1 and [norm(a) for a in ev_calls[0].args] == ["self.context"]
-    L.check(ok_t, "P2", "MonteCarlo.step:truthy", f"{step.module.relpath}:{mv_if.lineno}", "a truthy move result is not sent to criteria.evaluate(self.context) exactly once", "trial accepted/rejected without consulting the criteria", ";".join(body_txt)[:120])
-    inner = [x for x in mv_if.body if isinstance(x, ast.If)]
-    ok_sr = False
-    if len(inner) == 1:
-        a = [norm(c.func) for x in inner[0].body for c in calls_in(x)]
-        b = [norm(c.func) for x in inner[0].orelse for c in calls_in(x)]
-        ok_sr = a == ["self.save_state"] and b == ["self.revert_state"] and norm(inner[0].test) == "is_accepted"
-    L.check(ok_sr, "P2", "MonteCarlo.step:save-or-revert", f"{step.module.relpath}:{mv_if.lineno}", "verdict is not routed to save_state (truthy) / revert_state (falsy)", "accepted trial reverted or rejected trial kept", "route")
-    else_ev = [c for x in mv_if.orelse for c in calls_in(x) if isinstance(c.func, ast.Attribute) and c.func.attr in ("evaluate", "save_state", "revert_state")]
-    else_none = any(isinstance(x, ast.Assign) and norm(x.targets[0]) == "is_accepted" and norm(x.value) == "None" for x in mv_if.orelse)
-    L.check(not else_ev and else_none, "P2", "MonteCarlo.step:falsy", f"{step.module.relpath}:{mv_if.lineno}", "a falsy move result is not recorded as not attempted (None) without evaluating the criteria", "failed trials counted as rejections / criteria evaluated on an unchanged system", "falsy")
-    app = [x for x in lp.body if isinstance(x, ast.Expr) and isinstance(x.value, ast.Call) and norm(x.value.func) == "self.move_history.append"]
-    L.check(len(app) == 1 and norm(app[0].value.args[0]) == f"({norm(lp.target)}, is_accepted)", "P2", "MonteCarlo.step:history", f"{step.module.relpath}:{lp.lineno}", "the trial is not appended to move_history as (name, verdict) on every path", "", "history")
+    if not isinstance(lp.target, ast.Name):
+        raise AnalysisError("MonteCarlo.step: loop target is not a single name")
+    lname = lp.target.id
+    inl = Inliner(step.node)
+    where_lp = f"{step0.module.relpath}:{lp.lineno}"
+    mv_calls, ev_calls = [], []
+    for c in calls_in(lp):
+        if [norm(a) for a in c.args] == ["self.context"] and not c.keywords:
+            ftxt = norm(inl.inline(c.func))
+            if ftxt == f"self.moves[{lname}].move":
+                mv_calls.append(c)
+            elif ftxt == f"self.moves[{lname}].criteria.evaluate":
+                ev_calls.append(c)
+        elif isinstance(c.func, ast.Attribute) and c.func.attr == "evaluate":
+            ev_calls.append(c)  # a criteria evaluation spelled some other way: still traced, judged below
+    if not mv_calls:
+        cands = [c for c in calls_in(lp) if [norm(a) for a in c.args] == ["self.context"] and not (isinstance(c.func, ast.Attribute) and c.func.attr == "evaluate")]
+        if cands:
+            L.violation("P2", "MonteCarlo.step:selected-move", where_lp, f"the object called with the context is `{norm(inl.inline(cands[0].func))[:80]}`, not the move stored under the selected name",
+                        "a move other than the selected one is attempted", norm(cands[0])[:100])
+            mv_calls = cands[:1]
+        else:
+            raise AnalysisError("MonteCarlo.step: call of the selected move with self.context not found")
+    else:
+        L.ok("P2", "MonteCarlo.step:selected-move", where_lp)
+    body = [s_ for s_ in lp.body if not (isinstance(s_, ast.Expr) and isinstance(s_.value, (ast.Yield, ast.YieldFrom)))]
+    good_ev = {norm(c) for c in ev_calls if [norm(a) for a in c.args] == ["self.context"] and norm(inl.inline(c.func)) == f"self.moves[{lname}].criteria.evaluate"}
+    results = {}
+    for moved in (True, False):
+        for verdict in (True, False):
+            events: list[tuple] = []
+            env = {lname: "<name>", "__trace__": []}
+            for c in mv_calls:
+                env[norm(c)] = moved
+            for c in ev_calls:
+                env[norm(c)] = verdict
+            appended = []
+
+            def on_call(ftxt, call, _env=env, _events=events, _app=appended):
+                for t in _env["__trace__"]:
+                    _events.append(("value", t))
+                _env["__trace__"].clear()
+                if ftxt == "self.move_history.append" and len(call.args) == 1:
+                    try:
+                        _app.append(mev(call.args[0], _env))
+                    except PredUnsupported:
+                        _app.append(("?", norm(call.args[0])))
+                _events.append(("call", ftxt))
+
+            try:
+                run_stmts(body, env, on_call)
+            except Raises as exc:
+                events.append(("raises", exc.what))
+            except PredUnsupported as exc:
+                raise AnalysisError(f"MonteCarlo.step loop body: {exc}") from exc
+            for t in env["__trace__"]:
+                events.append(("value", t))
+            results[(moved, verdict)] = (events, appended)
+
+    def count(events, pred):
+        return sum(1 for e_ in events if pred(e_))
+
+    is_mv = lambda e_: e_[0] == "value" and e_[1] in {norm(c) for c in mv_calls}  # noqa: E731
+    is_ev = lambda e_: e_[0] == "value" and e_[1] in {norm(c) for c in ev_calls}  # noqa: E731
+    is_good_ev = lambda e_: e_[0] == "value" and e_[1] in good_ev  # noqa: E731
+    sr = lambda events: [e_[1] for e_ in events if e_[0] == "call" and e_[1] in ("self.save_state", "self.revert_state")]  # noqa: E731
+    ok_t = all(count(results[(True, v)][0], is_mv) == 1 and count(results[(True, v)][0], is_ev) == 1 and count(results[(True, v)][0], is_good_ev) == 1 for v in (True, False))
+    L.check(ok_t, "P2", "MonteCarlo.step:truthy", where_lp, "a truthy move result is not sent to criteria.evaluate(self.context) exactly once",
+            "trial accepted/rejected without consulting the criteria (or the criteria consulted twice)", ";".join(str(e_) for e_ in results[(True, True)][0])[:160])
+    # evaluate before the routing
+    ordered = True
+    for v in (True, False):
+        evs = results[(True, v)][0]
+        pos_ev = [i for i, e_ in enumerate(evs) if is_ev(e_)]
+        pos_sr = [i for i, e_ in enumerate(evs) if e_[0] == "call" and e_[1] in ("self.save_state", "self.revert_state")]
+        if pos_ev and pos_sr and min(pos_sr) < max(pos_ev):
+            ordered = False
+    ok_sr = sr(results[(True, True)][0]) == ["self.save_state"] and sr(results[(True, False)][0]) == ["self.revert_state"] and ordered
+    L.check(ok_sr, "P2", "MonteCarlo.step:save-or-revert", where_lp,
+            f"verdict is not routed to save_state (truthy) / revert_state (falsy): accepted -> {sr(results[(True, True)][0])}, rejected -> {sr(results[(True, False)][0])}",
+            "accepted trial reverted or rejected trial kept", "route")
+    ok_f = all(count(results[(False, v)][0], is_ev) == 0 and not sr(results[(False, v)][0]) and count(results[(False, v)][0], is_mv) == 1 and results[(False, v)][1] == [("<name>", None)] for v in (True, False))
+    L.check(ok_f, "P2", "MonteCarlo.step:falsy", where_lp, "a falsy move result is not recorded as not attempted (None) without evaluating the criteria",
+            "failed trials counted as rejections / criteria evaluated on an unchanged system", ";".join(str(e_) for e_ in results[(False, True)][0])[:160] + f" appended={results[(False, True)][1]}")
+    ok_h = all(results[(True, v)][1] == [("<name>", v)] for v in (True, False)) and all(len(results[(False, v)][1]) == 1 for v in (True, False))
+    L.check(ok_h, "P2", "MonteCarlo.step:history", where_lp, "the trial is not appended to move_history as (name, verdict) exactly once on every path",
+            "", f"accepted={results[(True, True)][1]} rejected={results[(True, False)][1]} failed={results[(False, True)][1]}")
 
     # ------------------------------------------------------------------ P3
     exch = prog.cls("ExchangeContext")
